@@ -95,6 +95,24 @@ SYMBOL_STATEMENTS = [
 ]
 
 
+def long_and_large():
+    """digit runs beyond what int() converts (4300 digits) in every numeric position; programs with more instructions than
+    16-bit addresses, with a label after them used in every way"""
+    for n in (4299, 4301, 6000):
+        d = "1" * n
+        for t in ("SET(R{}, 1)", "SET(R1, {})", "SET(R1, -{})", "SET(R1, 0x{})", "SET(R1, 0b{})", "SET(R1, 0o{})", "INTEGER({})", "DSKIP({})",
+                  "LABEL(a{})", "SET(R1, a{})", "OPCODE({})", "BRR({})", "CONSTANT(N, {})", "LP_STRING(\"\\x{}\")", "SET(R1, '\\{}')",
+                  "#include \"{}\"", "print_reg(r{})", "SET(FP_alt{}, 1)", "{}(R1)"):
+            yield t.format(d) + "\n"
+    big = "NOP()\n" * 65536
+    for tail in ("LABEL(x)\nSET(R1, x)\n", "LABEL(x)\nCALL(R12, x)\n", "LABEL(x)\nBR(x)\n", "LABEL(x)\nBRR(x)\n", "LABEL(x)\nHALT()\n",
+                 "NOP()\nLABEL(x)\nSETLO(R1, x)\n"):
+        yield big + tail
+    yield "LABEL(x)\n" + big + "BR(x)\nBRR(x)\n"
+    yield "SET(R1, 1)\n" * 40000 + "LABEL(x)\nSET(R2, x)\n"
+    yield "DSKIP(30000)\nDSKIP(30000)\nDLABEL(d)\nSET(R1, d)\nINTEGER(1)\nDLABEL(e)\nSET(R2, e)\n"
+
+
 def symbol_pairs():
     for a in SYMBOL_STATEMENTS:
         for b in SYMBOL_STATEMENTS:
@@ -144,7 +162,7 @@ def check(seed, n):
     violations, seen = [], set()
     dist = {"accepted": 0, "with_diagnostics": 0, "silent_rejects": 0}
     evals = 0
-    pairs = list(symbol_pairs())
+    pairs = list(symbol_pairs()) + list(long_and_large())
     try:
         for k in range(n + len(pairs)):
             if k < n:
@@ -153,16 +171,18 @@ def check(seed, n):
                 text = pairs[k - n]
                 dist["symbol_pairs"] = dist.get("symbol_pairs", 0) + 1
             mode = ["", "debug", "assemble", "preprocess"][(k + (k // 4 if k >= n else 0) + seed) % 4]
-            problem, ndiag, accepted = run_front_end(text, mode, d)
+            problem, ndiag, accepted = run_front_end(text, mode, d, limit=8 if len(text) < 100000 else 60)
+            if len(text) > 100000:
+                dist["large"] = dist.get("large", 0) + 1
             if k % 997 == 0 or k == n:
-                proto.sample("frontfuzz", {"text": text, "mode": mode}, per_stream=4)
+                proto.sample("frontfuzz", {"text": text[:300], "mode": mode}, per_stream=4)
             evals += 1
             seen.add((text, mode))
             dist["accepted"] += accepted
             dist["with_diagnostics"] += ndiag > 0
             if problem:
                 violations.append({"property": "C07", "stream": "frontfuzz", "sig": "ff:" + problem.split(":")[0][:50],
-                                   "case": {"text": text, "mode": mode}, "what": "front end on {!r}...: {}".format(text[:60], problem)})
+                                   "case": {"text": text, "mode": mode}, "what": "front end on {!r}...{!r}: {}".format(text[:60], text[-40:] if len(text) > 100 else "", problem)})
     finally:
         shutil.rmtree(d, ignore_errors=True)
     return {"evaluations": evals, "violations": violations, "disagreements": [], "distribution": dist, "distinct": len(seen)}
